@@ -88,7 +88,7 @@ Section Run.
           if negb (compared m t) then Some RUnmodelled
           else Some (project_rename_gen bi (c_init c) (c_call c) cx repaired compared m (q_tok q) (q_kw q))
       end.
-  Definition model_answer := model_answer_gen false.
+  Definition model_answer := model_answer_gen true.
 
   Definition check_query_gen (repaired : bool) (q : query) : N :=
     let m := N.to_nat (q_mod q) in
@@ -122,13 +122,12 @@ Section Run.
     end%N.
 
 
-  (* the code as found, or the code with the proposed fixes for two recorded findings (see Rename.rename_key) *)
-  Definition check_query (q : query) : N :=
-    let r := check_query_gen false q in
-    if N.eqb r 0 then 0 else if N.eqb (check_query_gen true q) 0 then 0 else r.
-  (* 1: the observation is the repaired behaviour and not the behaviour as found *)
-  Definition repaired_seen (q : query) : N :=
-    if N.eqb (check_query_gen false q) 0 then 0 else if N.eqb (check_query_gen true q) 0 then 1 else 0.
+  Definition check_query (q : query) : N := check_query_gen true q.
+  (* 1: the observation is the behaviour of the code AS FOUND for one of the two repaired defects (a builtin
+     respelled, a module moved through its alias) and not the behaviour of the repaired code: reported by the
+     harness as the return of a fixed defect *)
+  Definition regressed (q : query) : N :=
+    if N.eqb (check_query_gen true q) 0 then 0 else if N.eqb (check_query_gen false q) 0 then 1 else 0.
 
   (* for the evidence: 0 not modelled / not compared, 1 refused, 2 raised, 3 local rename, 4 rename of a name
      seen from several modules (some edit outside the query's module), 5 other rename, 6 module rename *)
@@ -201,12 +200,12 @@ Section Run.
       end%N.
   Definition alpha_classes : list N := map alpha_class (c_queries c).
   Definition classes : list N := map classify (c_queries c).
-  Definition repaired_count : N := fold_right N.add 0%N (map repaired_seen (c_queries c)).
+  Definition regressed_count : N := fold_right N.add 0%N (map regressed (c_queries c)).
 End Run.
 
 Definition mismatches (cs : list case) : list (list (N * N)) := map run_case cs.
 Definition all_classes (cs : list case) : list (list N) := map classes cs.
-Definition all_repaired (cs : list case) : list N := map repaired_count cs.
+Definition all_regressed (cs : list case) : list N := map regressed_count cs.
 Definition all_alpha (cs : list case) : list (list N) := map alpha_classes cs.
 
 (* debugging aid: the model's view of a case: per module, per token (id, key class, module of the key) *)
